@@ -1855,5 +1855,38 @@ complex_ = _DTS['complex']
 bool_ = _DTS['bool']
 
 
+class _AbstractDT:
+    """numpy's abstract scalar classes (np.integer, np.floating, ...) as far as issubdtype needs them."""
+    def __init__(self, name, tags):
+        self.name, self.tags = name, frozenset(tags)
+
+    def __repr__(self):
+        return f'<abstract dtype {self.name}>'
+
+
+_INT_TAGS = ['int', 'int8', 'int16', 'int32', 'uint8', 'uint16', 'uint32']
+_SINT_TAGS = ['int', 'int8', 'int16', 'int32']
+_UINT_TAGS = ['uint8', 'uint16', 'uint32']
+integer = _AbstractDT('integer', _INT_TAGS)
+signedinteger = _AbstractDT('signedinteger', _SINT_TAGS)
+unsignedinteger = _AbstractDT('unsignedinteger', _UINT_TAGS)
+floating = _AbstractDT('floating', ['float'])
+complexfloating = _AbstractDT('complexfloating', ['complex'])
+inexact = _AbstractDT('inexact', ['float', 'complex'])
+number = _AbstractDT('number', _INT_TAGS + ['float', 'complex'])
+generic = _AbstractDT('generic', _INT_TAGS + ['float', 'complex', 'bool', 'str', 'object'])
+
+
+def issubdtype(a, b):
+    ta = a.tags if isinstance(a, _AbstractDT) else frozenset([dt_tag(a)])
+    if isinstance(b, _AbstractDT):
+        return ta <= b.tags
+    # numpy: a Python type or concrete dtype as second argument stands for its abstract family only for float/complex/int
+    tb = dt_tag(b)
+    fam = {'float': floating.tags, 'complex': complexfloating.tags, 'int': signedinteger.tags}.get(tb, frozenset([tb])) \
+        if b in (float, complex, int) else frozenset([tb])
+    return ta <= fam
+
+
 EXPORT_ALIASES = {'sum': np_sum, 'all': np_all, 'any': np_any, 'max': amax, 'min': amin, 'abs': absolute,
                   'round': round_}
